@@ -133,6 +133,72 @@ class Ctx:
             else:
                 self.other.append({"attributed_to": sorted(props), "signature": sig})
 
+    def drive_and_validate(self, label, drive_args, module, attribute_event, profile="dev", invariants=(), filter_event=None):
+        """Run the random driver on the real crate, then validate its event log with TLC."""
+        import subprocess
+        logp = os.path.join(self.outdir, "%s.%s.events.ndjson" % (label, profile))
+        cmd = [core.binpath("drive", profile)] + [str(a).replace("{out}", logp) for a in drive_args]
+        t0 = time.time()
+        r = subprocess.run(cmd, stdout=subprocess.PIPE, stderr=subprocess.PIPE, text=True)
+        if r.returncode != 0:
+            # the driver itself died: that is an observation about the code under test (abort), keep what was logged
+            self.notes.append("driver %s exited with %s" % (label, r.returncode))
+            if not os.path.exists(logp) or core.count_lines(logp) == 0:
+                self.add_violation({"driver": cmd, "returncode": r.returncode, "stderr": r.stderr[-2000:]},
+                                   "the random driver crashed (abort in the code under test) before logging anything")
+                return
+        if filter_event is not None:
+            tmp = logp + ".sel"
+            with open(logp) as fi, open(tmp, "w") as fo:
+                for line in fi:
+                    if filter_event(json.loads(line)):
+                        fo.write(line)
+            logp = tmp
+        nev = core.count_lines(logp)
+        ok, rejected, states = core.validate_trace(self.outdir, "%s.%s" % (label, profile), module, logp, invariants=invariants)
+        self.events_validated += ok
+        self.traces_validated += 1
+        self.tlc.append({"name": "trace:" + label, "module": module, "states_generated": states, "distinct_states": states,
+                         "depth": 0, "cases_emitted": 0, "wall_s": round(time.time() - t0, 1), "coverage": None,
+                         "trace_events": nev, "trace_events_accepted": ok, "trace_rejections": len(rejected), "driver": " ".join(cmd)})
+        log("[drive] %s/%s: %d events, %d accepted, %d rejected" % (label, profile, nev, ok, len(rejected)))
+        with open(logp) as f:
+            for i, line in enumerate(f):
+                if i == 1 and len(self.samples) < 8:
+                    e = json.loads(line)
+                    for k in ("before", "after"):
+                        if k in e and len(e[k]) > 24:
+                            e[k] = e[k][:24] + ["..."]
+                    self.samples.append({"driver_event": e})
+                if i >= 1:
+                    break
+        for rj in rejected:
+            ev = rj.get("event")
+            if ev is None:
+                if rj.get("invariant_violated"):
+                    self.add_violation({"trace": True, "invariant": rj["invariant_violated"]}, "trace invariant violated")
+                else:
+                    self.notes.append(rj.get("note", "trace validation stopped early"))
+                continue
+            props, sig = attribute_event(None, ev)
+            # keep the events of the rejected history as the replay artefact
+            hist = []
+            with open(logp) as f:
+                for line in f:
+                    e = json.loads(line)
+                    if e.get("case") == ev.get("case"):
+                        hist.append(e)
+            rec = {"driver": " ".join(cmd), "trace": True, "rejected_event": ev, "history": hist[:400], "profile": profile,
+                   "attributed_to": sorted(props), "signature": sig, "trace_module": module, "driver_mode": True}
+            if self.prop in props:
+                k = core.match_known(self.known, self.prop, sig)
+                if k is not None:
+                    self.known_hits.append((k, rec))
+                else:
+                    self.add_violation(rec, "driver trace rejected at %s" % json.dumps({k: v for k, v in ev.items() if k not in ("before", "after")})[:300])
+            else:
+                self.other.append({"attributed_to": sorted(props), "signature": sig})
+
     def count_nontrivial(self, cases_path, keyfn):
         """keyfn(case) -> hashable key or None (trivial)."""
         with open(cases_path) as f:
